@@ -185,6 +185,32 @@ def check(repo: Repo, rep: Report) -> None:
         cases.append((N("Seq", alt(), 3), [5, -(k + 2), 255], (1, 1), f"Seq(OneOf(HexInt, Dict(..{toks[k]!r}..)), 3) value [5, {-(k + 2)}, 255]"))
     cases.append((N("Seq", alt(), len(toks)), [-(k + 2) for k in range(len(toks))], (1, 1), "Seq(OneOf(HexInt, Dict(capital and other tokens))) all tokens"))
     judge("RT-LEAF", "OneOf(HexInt, Dict with tokens outside HexInt's alphabet)", cases)
+    # ---- a list of alternatives / parts shared by two combinators: a constructor does not keep (and grow) its caller's list --------
+    try:
+        bad = None
+        for cls in ("OneOf", "Tupl"):
+            common = [N("Spaces", 0, "g"), N("HexInt")]
+            n0 = len(common)
+            if cls == "OneOf":
+                first = N("OneOf", common, N("Dict", [-2], ["."]))
+                second = N("OneOf", common, N("Dict", [-1], ["."]))
+                msg = w.roundtrip(N("Seq", second, 3), [5, -1, 0], 1, 1)
+            else:
+                first = N("Tupl", common, N("FixStr", "/"))
+                second = N("Tupl", common, N("DecInt"))
+                msg = w.roundtrip(second, ([0], [17], [4]), 1, 1)
+            if len(common) != n0:
+                bad = f"{cls}(common, x): the caller's list `common` has {len(common)} items after two combinators were built from it (it had {n0})"
+            elif msg:
+                bad = f"two {cls} combinators built from one shared list of parts, the second one: {msg}"
+            if bad:
+                break
+        if bad:
+            rep.finding("RT-LEAF", SER, "OneOf", "shared list of alternatives", bad)
+        else:
+            rep.ok("RT-LEAF", "OneOf / Tupl built from a shared list of parts: the list is left alone and the second combinator round-trips", nontrivial=False)
+    except Undecided as ex:
+        rep.undecide("RT-LEAF", f"shared list of alternatives: {ex}")
     # ---- Grid ---------------------------------------------------------------------------------
     for (h, wd) in [(1, 1), (1, 4), (4, 1), (2, 3), (5, 9)]:
         cases = []
